@@ -173,11 +173,9 @@ func vfFileClose(f *os.File) error {
 	if err != nil {
 		return err
 	}
-	if err := vfStep("close"); err != nil {
-		return err
-	}
+	// the descriptor is gone whatever close(2) reports
 	h.closed = true
-	return nil
+	return vfStep("close")
 }
 
 type vfFInfo struct{ size int64 }
